@@ -27,6 +27,10 @@ type CloneCase struct {
 	Interrupt string `json:"interrupt"` // "" | killclone (kill -9 the clone once during the copy and restart it) | shortchain (the clone process runs with MAX_CHAIN_LENGTH=2: create, open and the file copy work, its reload onto a copied chain of more than one snapshot fails)
 	KillAtMs  int    `json:"killat"`
 	Grow      int    `json:"grow,omitempty"` // Interrupt "resize": the new volume is grown by this many blocks while the clone is being made
+	// NameStyle: how the source's snapshots are called - 0: s0, s1, ...; 1: base, baseimg,
+	// baseimgimg, ... (each name is the previous one plus a suffix made of the letters of
+	// ".img"); 2: s0.img, s1.img, ...; 3: volume-snap-s0, ...
+	NameStyle int `json:"namestyle,omitempty"`
 }
 
 type cloneObs struct {
@@ -144,6 +148,14 @@ func runCloneCase(cc CloneCase) (*Fail, []string, map[string]int, error) {
 	for i, op := range cc.Hist {
 		if op.K == "snapshot" {
 			op.Name = fmt.Sprintf("s%d", len(snaps))
+			switch cc.NameStyle {
+			case 1:
+				op.Name = "base" + strings.Repeat("img", len(snaps))
+			case 2:
+				op.Name = fmt.Sprintf("s%d.img", len(snaps))
+			case 3:
+				op.Name = fmt.Sprintf("volume-snap-s%d", len(snaps))
+			}
 		}
 		if f := x.Step(i, op); f != nil {
 			labels["source-history-crossfinding"]++
@@ -523,6 +535,7 @@ func genCloneCase(t *rapid.T) CloneCase {
 		cc.Hist = append(h, cc.Hist[pos:]...)
 	}
 	cc.Pick = rapid.IntRange(0, 5).Draw(t, "pick")
+	cc.NameStyle = rapid.SampledFrom([]int{0, 0, 0, 1, 1, 2, 3}).Draw(t, "namestyle")
 	switch rapid.IntRange(0, 9).Draw(t, "variant") {
 	case 0:
 		cc.Pick = -1
